@@ -59,7 +59,17 @@ func expandC09(t *testing.T, base *hx.Program, r *simrt.Rand, tier string) []*hx
 	if oc.Trouble != "" || len(oc.Viol) > 0 || len(c.layouts) == 0 {
 		return []*hx.Program{base}
 	}
-	lay := c.layouts[0]
+	// take a layout with several segments (the probe ran without retention, so later layouts are supersets)
+	var cands []layout
+	for _, l := range c.layouts {
+		if len(l.segs) >= 2 {
+			cands = append(cands, l)
+		}
+	}
+	lay := c.layouts[len(c.layouts)-1]
+	if len(cands) > 0 {
+		lay = cands[r.Intn(len(cands))]
+	}
 	var msgs, bytes, ages []int64
 	msgs, bytes, ages = append(msgs, 0), append(bytes, 0), append(ages, 0)
 	var cm, cb int64
